@@ -373,7 +373,10 @@ type paginatedRoles struct {
 	sort    *ssa.Function // calls sort.Ints on a receiver field
 	compact *ssa.Function // func() method that calls the sort routine (moves buffered indexes into pages)
 	bufFld  string
-	err     string
+	// sortFlag: a bool field that caches "the buffer is sorted" — raised by the sort routine right after sorting
+	// ("" if the store has no such cache). Its maintenance is a typestate obligation of its own (C14-D1).
+	sortFlag string
+	err      string
 }
 
 func (c *Ctx) paginated() *paginatedRoles {
@@ -417,7 +420,19 @@ func (c *Ctx) paginated() *paginatedRoles {
 	for _, f := range sorts {
 		if len(f.Params) == 1 && f.Signature.Results().Len() == 0 {
 			ms := c.Mod.Mods[f]
-			if len(ms) == 1 && ms["p0."+r.bufFld+"[*]"] {
+			// the routine may also raise a cache flag "buffer is sorted" (a bool field of the store)
+			flag := ""
+			if len(ms) == 2 && ms["p0."+r.bufFld+"[*]"] {
+				for l := range ms {
+					for _, fld := range structFields(r.typ) {
+						if l == "p0."+fld.Name() && fld.Type().String() == "bool" {
+							flag = fld.Name()
+						}
+					}
+				}
+			}
+			if len(ms) == 1 && ms["p0."+r.bufFld+"[*]"] || flag != "" {
+				r.sortFlag = flag
 				if r.sort != nil {
 					r.err = "more than one parameterless method that only sorts the buffer"
 					return r
@@ -464,8 +479,10 @@ func (c *Ctx) Mod2() *ModAnalysis {
 	if c.mod2 == nil {
 		r := c.paginated()
 		modExemptSortField = r.bufFld
+		modExemptFlagField = r.sortFlag
 		c.mod2 = newModAnalysis(c.P, r.sort, r.compact)
 		modExemptSortField = ""
+		modExemptFlagField = ""
 	}
 	return c.mod2
 }
